@@ -99,7 +99,7 @@ def seq_of(fn, e, depth=0, upto=None):
         # a collection held in a field: what it held, then what this function has appended to it so far
         pl = hir.place(e)
         items = [("all", pl, e)]
-        muts = [n for n in fn.nodes() if hir.is_call(n) and (hir.callee_name(n) or n.get("method")) in MUTATORS and hir.call_args(n) and pl is not None and hir.place(hir.call_args(n)[0]) == pl and (upto is None or n["id"] < upto) and n["id"] < e.get("id", 1 << 62)]
+        muts = [n for n in fn.nodes() if hir.is_call(n) and (hir.callee_name(n) or n.get("method")) in MUTATORS and hir.call_args(n) and pl is not None and hir.place(hir.call_args(n)[0]) == pl and (upto is None or n["id"] < upto) and n["id"] < e.get("id", 1 << 62) and not any(x is e for x in hir.walk(n))]
         for n in sorted(muts, key=lambda x: x["id"]):
             m = hir.callee_name(n) or n.get("method")
             a = hir.call_args(n)
